@@ -18,7 +18,13 @@
        element.wait:  next := it.get(direction); for next == it.get(direction) { if closed -> ErrQueueClosed;
                       cond.Signal(); if ctx ended -> ctx.Err(); cond.Wait() }   + deferred cancel (helper broadcast)
    Which of the three conds is used does not matter any more: every change broadcasts all three.
-   The tracker is the unlimited one. *)
+   The tracker: `dlen` is tracker.len(); its verdicts are INPUTS of the steps (the arithmetic is C06's model):
+   `LPushBack/LPushFront` are pushes that tracker.add() accepts, `LPushRej` one that it rejects (hard-limit /
+   quota tracker: addAfter then only broadcasts `updates` and returns the error, before allocating anything),
+   and `LForcePush v back full` carries the outcome of `dq.tracker.cap() == dq.tracker.len()`:
+       ForcePushBack:  if cap == len { _, _ = dq.pop(dq.root.next) };  return dq.addAfter(it, dq.root.prev)
+       ForcePushFront: if cap == len { _, _ = dq.pop(dq.root.prev) };  return dq.addAfter(it, dq.root)
+   (the insertion point is read AFTER the eviction). *)
 From FunV Require Import Base.Tac.
 From FunV Require Export Model.QueueCursor.   (* upd, res, ob *)
 
@@ -94,7 +100,9 @@ Definition dwake_all (f : nat -> diter) : nat -> diter :=
 
 Inductive dlabel :=
 | LPushBack (v : Z) | LPushFront (v : Z) | LPopFront | LPopBack | LDClose | LDCancel (i : nat)
-| LDCall (i : nat) | LDRun (i : nat).
+| LDCall (i : nat) | LDRun (i : nat)
+| LForcePush (v : Z) (back full : bool)
+| LPushRej (v : Z).
 
 (* after the (optional) wait:  next := current.get(direction); if next == nil || next == dq.root -> EOF ... *)
 Definition finish (d : deque) (f : nat -> diter) (i : nat) (c : nat) : (nat -> diter) * event :=
@@ -180,6 +188,12 @@ Definition dstep (s : dstate) (l : dlabel) : dstate * event :=
       | _ => (s, EvNone)
       end
   | LDRun i => let '(f, ev) := drun_iter d (dits s) i in (mkDS d f, ev)
+  | LForcePush v back full =>
+      let s1 := if full then fst (pop s (negb back)) else s in      (* evict at the opposite end; result ignored *)
+      push s1 v back
+  | LPushRej _ =>
+      if dclosed d then (s, EvAdd false)                            (* ErrQueueClosed comes first *)
+      else (mkDS d (dwake_all (dits s)), EvAdd false)               (* dq.updates.Broadcast(); return err *)
   end.
 
 Fixpoint drun (s : dstate) (ls : list dlabel) : dstate * list event :=
@@ -192,7 +206,8 @@ Fixpoint drun (s : dstate) (ls : list dlabel) : dstate * list event :=
 
 Inductive dact :=
 | DPushBack (v : Z) | DPushFront (v : Z) | DPopFront | DPopBack | DClose | DCancel (i : nat)
-| DCall (i : nat) | DGo (i : nat) | DLen.
+| DCall (i : nat) | DGo (i : nat) | DLen
+| DForcePush (v : Z) (back full : bool) | DPushRej (v : Z).
 
 Fixpoint ddrive (fuel : nat) (s : dstate) (i : nat) : dstate * res :=
   match fuel with
@@ -225,6 +240,8 @@ Definition dqstep (s : dstate) (a : dact) : dstate * ob :=
       end
   | DGo i => let '(s', r) := ddrive 3 s i in (s', ObIt r)
   | DLen => (s, ObLen (Z.of_nat (dlen (sd s))))
+  | DForcePush v back full => let '(s', e) := dstep s (LForcePush v back full) in (s', ev_ob e)
+  | DPushRej v => let '(s', e) := dstep s (LPushRej v) in (s', ev_ob e)
   end.
 
 Fixpoint dqrun (s : dstate) (acts : list dact) : list ob :=
